@@ -172,4 +172,4 @@ def _case(draw, hi):
 
 def subs(tier: str):
     q = tier == "quick"
-    return [Sub("plots", check, "hypothesis", strategy=lambda: _case(8), examples=120 if q else 1500)]
+    return [Sub("plots", check, "hypothesis", strategy=lambda: _case(8), examples=120 if q else 4000)]
